@@ -146,6 +146,12 @@ pub proof fn lemma_window_start_monotone(a: Slot, b: Slot)
     assert((a.0 / 4) <= (b.0 / 4));
 }
 
+pub proof fn lemma_window_start_le(a: Slot)
+    ensures spec_first_in_window(a) <= a.0,
+{
+    assert(SLOTS_PER_WINDOW == 4);
+}
+
 // [C05.own_votes_never_slashable]  A log satisfying the invariant contains no slashable pair for a retained
 // slot: not two notar votes, not notar + skip, not finalize together with skip / skip-fallback / notar-fallback.
 pub proof fn theorem_own_votes_not_slashable<A: All2All>(v: &Votor<A>, i: int, j: int)
@@ -271,6 +277,25 @@ impl Vote {
         ensures r.spec_kind() == VoteKind::Final, r.spec_slot() == slot, r.spec_signer() == signer
     { unimplemented!() }
 }
+
+
+impl BlockstoreEvent {
+/*@ extract src/consensus/blockstore.rs :: impl BlockstoreEvent/fn slot
+ret r
+rewrite[R1-or-pattern] `Self::FirstShred(slot) | Self::InvalidBlock(slot) => *slot,` => `Self::FirstShred(slot) => *slot, Self::InvalidBlock(slot) => *slot,`
+ensures
+        r == (match *self { BlockstoreEvent::FirstShred(s) => s, BlockstoreEvent::InvalidBlock(s) => s, BlockstoreEvent::Block { slot, block_info } => slot }),
+@*/
+}
+impl VotorTimeout {
+/*@ extract src/consensus/votor.rs :: impl VotorTimeout/fn slot
+ret r
+rewrite[R1-or-pattern] `Self::Timeout(slot) | Self::TimeoutCrashedLeader(slot) => *slot,` => `Self::Timeout(slot) => *slot, Self::TimeoutCrashedLeader(slot) => *slot,`
+ensures
+        r == (match *self { VotorTimeout::Timeout(s) => s, VotorTimeout::TimeoutCrashedLeader(s) => s }),
+@*/
+}
+impl Clone for BlockInfo { #[verifier::external_body] fn clone(&self) -> (r: Self) ensures r == *self { unimplemented!() } }
 
 impl<A: All2All> Votor<A> {
     // `self.broadcast(msg)` (All2All network send through &self) renamed by rewrite R3b: a cast vote is
@@ -611,6 +636,196 @@ before `self.prune();`
             assert(self.sent == pre.sent);
             assert(self.inv_full(None, pre.lo()));
         }
+@*/
+
+/*@ extract src/consensus/votor.rs :: impl Votor<A>/fn should_ignore_pool_event
+props C05 C18
+ret r
+ensures
+        // [C05.events_for_pruned_or_retired_slots_ignored C18.standstill_bundle_never_filtered]
+        r == (match *event {
+            PoolEvent::Standstill(_, _, _) => false,
+            PoolEvent::CertCreated(c) => c.spec_slot().0 < self.lo(),
+            PoolEvent::ParentReady { slot, parent } => slot.0 < self.lo() || self.st(slot).retired,
+            PoolEvent::SafeToNotar(id) => id.0.0 < self.lo() || self.st(id.0).retired,
+            PoolEvent::SafeToSkip(s) => s.0 < self.lo() || self.st(s).retired,
+        }),
+@*/
+
+/*@ extract src/consensus/votor.rs :: impl Votor<A>/fn handle_pool_event
+props C05 C18
+elide-async
+rewrite*[R3b] `self.broadcast(` => `self.verif_broadcast(`
+rewrite*[R8] `vote.into()` => `ConsensusMessage::Vote(vote)`
+rewrite*[R3b] `self.try_skip_window(slot);` => `self.try_skip_window(slot, Ghost(Some(slot)));`
+rewrite[R8] `for cert in certs { self.verif_broadcast(cert.into()); } for vote in votes { self.verif_broadcast(ConsensusMessage::Vote(vote)); }` => `self.verif_rebroadcast_bundle(certs, votes);`
+requires
+        old(self).inv(),
+        // what the pool guarantees for the events it sends (C06 / C07): a ParentReady names the first slot of a window
+        event matches PoolEvent::ParentReady { slot, parent } ==> slot.0 % SLOTS_PER_WINDOW == 0,
+        event matches PoolEvent::SafeToNotar(id) ==> id.0.0 + SLOTS_PER_WINDOW <= u64::MAX,
+        event matches PoolEvent::SafeToSkip(s) ==> s.0 + SLOTS_PER_WINDOW <= u64::MAX,
+ensures
+        final(self).inv(),
+        old(self).sent@.is_prefix_of(final(self).sent@),
+        // [C05.fallback_votes_only_on_their_safe_to_event]
+        forall|i: int| old(self).sent@.len() <= i < final(self).sent@.len() ==> match (#[trigger] final(self).sent@[i]).1 {
+            VoteKind::NotarFallback(h) => event == PoolEvent::SafeToNotar((final(self).sent@[i].0, h)),
+            VoteKind::SkipFallback => event == PoolEvent::SafeToSkip(final(self).sent@[i].0),
+            VoteKind::Skip => event is SafeToNotar || event is SafeToSkip,
+            VoteKind::Notar(_) => event is ParentReady,
+            VoteKind::Final => event is ParentReady || event is CertCreated,
+        },
+before `let slot = event.slot();`
+        let ghost pre = *self;
+after `self.state_mut(slot).parents_ready.insert(parent);`
+        proof {
+            assert forall|t: Slot| t != slot implies #[trigger] self.st(t) == pre.st(t) by {}
+            assert(self.st(slot).voted == pre.st(slot).voted && self.st(slot).voted_notar == pre.st(slot).voted_notar
+                && self.st(slot).bad_window == pre.st(slot).bad_window && self.st(slot).retired == pre.st(slot).retired);
+            assert(self.sent@ == pre.sent@);
+            assert(self.lo() == pre.lo());
+            assert(self.inv());
+        }
+after `self.verif_broadcast(ConsensusMessage::Vote(vote));#0`
+        proof {
+            assert forall|t: Slot| #[trigger] self.st(t) == pre.st(t) by {}
+            assert(self.sent@ == pre.sent@.push((slot, VoteKind::NotarFallback(hash))));
+            assert forall|i: int| 0 <= i < pre.sent@.len() implies #[trigger] self.sent@[i] == pre.sent@[i] by {}
+            assert(self.lo() == pre.lo());
+            assert(self.inv_x(Some(slot)));
+        }
+after `self.verif_broadcast(ConsensusMessage::Vote(vote));#1`
+        proof {
+            assert forall|t: Slot| #[trigger] self.st(t) == pre.st(t) by {}
+            assert(self.sent@ == pre.sent@.push((slot, VoteKind::SkipFallback)));
+            assert forall|i: int| 0 <= i < pre.sent@.len() implies #[trigger] self.sent@[i] == pre.sent@[i] by {}
+            assert(self.lo() == pre.lo());
+            assert(self.inv_x(Some(slot)));
+        }
+before `self.state_mut(slot).bad_window = true;#0`
+        let ghost g2 = *self;
+after `self.state_mut(slot).bad_window = true;#0`
+        proof {
+            assert forall|t: Slot| #[trigger] self.st(t) == (if t == slot { SlotState { bad_window: true, ..g2.st(slot) } } else { g2.st(t) }) by {}
+            assert(self.sent@ == g2.sent@ && self.lo() == g2.lo());
+            assert(!g2.st(slot).retired);
+            assert(self.inv());
+            let base = pre.sent@.push((slot, VoteKind::NotarFallback(hash)));
+            assert forall|i: int| pre.sent@.len() <= i < self.sent@.len() implies
+                (if i == pre.sent@.len() { #[trigger] self.sent@[i] == (slot, VoteKind::NotarFallback(hash)) } else { self.sent@[i].1 is Skip }) by {
+                if i == pre.sent@.len() { assert(self.sent@[i] == base[i]); }
+            }
+        }
+before `self.state_mut(slot).bad_window = true;#1`
+        let ghost g3 = *self;
+after `self.state_mut(slot).bad_window = true;#1`
+        proof {
+            assert forall|t: Slot| #[trigger] self.st(t) == (if t == slot { SlotState { bad_window: true, ..g3.st(slot) } } else { g3.st(t) }) by {}
+            assert(self.sent@ == g3.sent@ && self.lo() == g3.lo());
+            assert(!g3.st(slot).retired);
+            assert(self.inv());
+            let base = pre.sent@.push((slot, VoteKind::SkipFallback));
+            assert forall|i: int| pre.sent@.len() <= i < self.sent@.len() implies
+                (if i == pre.sent@.len() { #[trigger] self.sent@[i] == (slot, VoteKind::SkipFallback) } else { self.sent@[i].1 is Skip }) by {
+                if i == pre.sent@.len() { assert(self.sent@[i] == base[i]); }
+            }
+        }
+@*/
+
+/*@ extract src/consensus/votor.rs :: impl Votor<A>/fn handle_blockstore_event
+props C05
+elide-async
+rewrite*[R3b] `self.try_skip_window(slot);` => `self.try_skip_window(slot, Ghost(None));`
+requires
+        old(self).inv(),
+        (match event { BlockstoreEvent::FirstShred(s) => s, BlockstoreEvent::InvalidBlock(s) => s, BlockstoreEvent::Block { slot, block_info } => slot }).0 + SLOTS_PER_WINDOW <= u64::MAX,
+ensures
+        final(self).inv(),
+        old(self).sent@.is_prefix_of(final(self).sent@),
+        // [C05.blocks_trigger_only_initial_and_finalize_votes]
+        forall|i: int| old(self).sent@.len() <= i < final(self).sent@.len() ==> match (#[trigger] final(self).sent@[i]).1 {
+            VoteKind::Notar(_) => event is Block,
+            VoteKind::Final => event is Block,
+            VoteKind::Skip => event is InvalidBlock,
+            _ => false,
+        },
+before `let slot = event.slot();`
+        let ghost pre = *self;
+        proof { lemma_window_start_le(self.highest_final_cert_slot); }
+after `self.state_mut(slot).received_shred = true;`
+        proof {
+            assert forall|t: Slot| #[trigger] self.st(t) == (if t == slot { SlotState { received_shred: true, ..pre.st(slot) } } else { pre.st(t) }) by {}
+            assert(self.sent@ == pre.sent@ && self.lo() == pre.lo());
+            assert(self.inv());
+        }
+before `self.check_pending_blocks();`
+        let ghost g5 = *self;
+        proof {
+            let pushed = pre.sent@.push((slot, VoteKind::Notar(block_info.hash)));
+            assert forall|i: int| 0 <= i < pre.sent@.len() implies #[trigger] g5.sent@[i] == pre.sent@[i] by { assert(g5.sent@[i] == pushed[i]); }
+            assert forall|i: int| pre.sent@.len() <= i < g5.sent@.len() implies ((#[trigger] g5.sent@[i]).1 is Notar || g5.sent@[i].1 is Final) by {
+                if i == pre.sent@.len() { assert(g5.sent@[i] == pushed[i]); }
+            }
+        }
+after `self.check_pending_blocks();`
+        proof {
+            assert forall|i: int| 0 <= i < g5.sent@.len() implies #[trigger] self.sent@[i] == g5.sent@[i] by {}
+            assert forall|i: int| 0 <= i < pre.sent@.len() implies #[trigger] self.sent@[i] == pre.sent@[i] by { assert(self.sent@[i] == g5.sent@[i]); }
+            assert forall|i: int| pre.sent@.len() <= i < self.sent@.len() implies ((#[trigger] self.sent@[i]).1 is Notar || self.sent@[i].1 is Final) by {
+                if i < g5.sent@.len() { assert(self.sent@[i] == g5.sent@[i]); }
+            }
+        }
+before `self.state_mut(slot).pending_block = Some(block_info);`
+        let ghost g2 = *self;
+after `self.state_mut(slot).pending_block = Some(block_info);`
+        proof {
+            assert forall|t: Slot| #[trigger] self.st(t) == (if t == slot { SlotState { pending_block: Some(block_info), ..g2.st(slot) } } else { g2.st(t) }) by {}
+            assert(self.sent@ == g2.sent@ && self.lo() == g2.lo());
+            assert(self.inv());
+        }
+@*/
+
+/*@ extract src/consensus/votor.rs :: impl Votor<A>/fn handle_timeout_event
+props C05
+elide-async
+rewrite*[R3b] `self.try_skip_window(slot);` => `self.try_skip_window(slot, Ghost(None));`
+requires
+        old(self).inv(),
+        (match event { VotorTimeout::Timeout(s) => s, VotorTimeout::TimeoutCrashedLeader(s) => s }).0 + SLOTS_PER_WINDOW <= u64::MAX,
+ensures
+        final(self).inv(),
+        old(self).sent@.is_prefix_of(final(self).sent@),
+        // [C05.timeouts_trigger_only_skip_votes]
+        forall|i: int| old(self).sent@.len() <= i < final(self).sent@.len() ==> (#[trigger] final(self).sent@[i]).1 is Skip,
+before `let slot = event.slot();`
+        proof { lemma_window_start_le(self.highest_final_cert_slot); }
+@*/
+
+// Canary: the real try_final under a deliberately false contract (claims a finalize vote is always cast); MUST fail.
+/*@ extract src/consensus/votor.rs :: impl Votor<A>/fn try_final
+as canary_try_final
+expect-fail
+elide-async
+rewrite*[R3b] `self.broadcast(` => `self.verif_broadcast(`
+rewrite*[R8] `vote.into()` => `ConsensusMessage::Vote(vote)`
+requires
+        old(self).inv(),
+        slot.0 >= old(self).lo(),
+ensures
+        final(self).sent@.len() == old(self).sent@.len() + 1,
+closure 0
+        params s: &SlotState
+        ret o: Option<&BlockHash>
+        ensures (o is Some) == (s.block_notarized is Some), o matches Some(x) ==> *x == s.block_notarized->0
+closure 1
+        params s: &SlotState
+        ret o: Option<&BlockHash>
+        ensures (o is Some) == (s.voted_notar is Some), o matches Some(x) ==> *x == s.voted_notar->0
+closure 2
+        params s: &SlotState
+        ret b: bool
+        ensures b == s.bad_window
 @*/
 }
 
